@@ -305,8 +305,11 @@ class _:
 
 @op('scalar_op')
 class _:
-    def run(a, ins, o, v, reflected): return py_binop(o, v, a) if reflected else py_binop(o, a, v)
-    def coq(o, v, reflected):
+    def run(a, ins, o, v, reflected, np_scalar=False):
+        # np_scalar: the scalar is a NumPy scalar (np.float64 / np.int64: what a.mean(), a.values[0] ... return), not a Python number
+        if np_scalar: v = np.float64(v) if isinstance(v, float) else np.int64(v)
+        return py_binop(o, v, a) if reflected else py_binop(o, a, v)
+    def coq(o, v, reflected, np_scalar=False):
         c, k = cq_fill(v)
         return '(OScalarOp %s %s %s %s)' % (_BINOP[o], c, k, 'true' if reflected else 'false')
 
